@@ -13,6 +13,7 @@ const TEXTS = {
 };
 const STYLES = {
   block: (t) => `/* ${t} */`,
+  jsdocCRLF: (t) => `/**\r\n * ${t}\r\n */`, lineCRLF: (t) => `// ${t}\r`,
   // other comments at the same position, before / after the annotation
   afterBanner: (t) => `/* (c) the authors */\n/* ${t} */`, afterLine: (t) => `// eslint-disable-next-line\n// ${t}`, beforeNote: (t) => `/* ${t} */\n/* a note */`, jsdoc: (t) => `/** ${t} */`, jsdocMulti: (t) => `/**\n * ${t}\n */`, jsdocMulti2: (t) => `/**\n * @file demo\n * ${t}\n * @license MIT\n */`, otherTagBefore: (t) => `/**\n * @jsxRuntime classic\n * ${t}\n */`, otherTagAfter: (t) => `/**\n * ${t}\n * @jsxImportSource vue\n */`, line: (t) => `// ${t}`, tight: (t) => `/*${t}*/`,
 };
